@@ -9,7 +9,7 @@ from e2cases import fr
 MODELS = ['/rt/rt_common.c', '/models/stdcxx.c', '/models/alloc_ledger.c', '/models/cholmod_model.c', '/models/libc_stubs.c']
 ASAN = ['-fsanitize=address', '-fno-omit-frame-pointer']
 MUTS = ['valid', 'sm_one', 'po_one', 'monodim_last', 'w_short', 'w_long', 'cv_short', 'cv_long', 'ord_short', 'ord_long', 'kv_short', 'kv_long', 'sm_zero', 'sm_long', 'po_zero', 'po_long', 'monodim_eq', 'monodim_big',
-        'idx_eq_range', 'idx_huge', 'coords_short', 'coords_empty', 'knots_unsorted', 'knots_few', 'knots_min_minus1', 'knots_one', 'knots_zero', 'order_huge', 'porder_p1', 'porder_p2', 'porder_p3', 'rows_zero', 'ndim_zero', 'populated']
+        'idx_eq_range', 'idx_huge', 'range_gt_coords', 'range_gt_coords_last', 'coords_short', 'coords_empty', 'knots_unsorted', 'knots_few', 'knots_min_minus1', 'knots_one', 'knots_zero', 'order_huge', 'porder_p1', 'porder_p2', 'porder_p3', 'rows_zero', 'ndim_zero', 'populated']
 
 def build_harness():
     def build():
